@@ -136,6 +136,9 @@ func VH_C18_request(op, which, kind, uriForm int) {
 	case 7:
 		path = "no/such/operation"
 		ps = []param{{"location", vhStr, true, "loc"}}
+	case 8: // search-and-remove: a request built on top of another request
+		path = "facts/take"
+		ps = []param{{"location", vhStr, true, "loc"}, {"pattern", vhMap, true, pattern}}
 	}
 	vassume(which < len(ps))
 	m := map[string]interface{}{"uri": vhURIs[uriForm] + path}
@@ -172,6 +175,16 @@ func VH_C18_request(op, which, kind, uriForm int) {
 		_, e1 := sa.GetFact(ca, "loc", "f0")
 		_, e2 := sa.GetRule(ca, "loc", "r0")
 		vassert(e1 == nil && e2 == nil, "refused-request-has-no-effect")
+		vreach("end")
+		return
+	}
+	if op == 8 {
+		// well-typed take: the matching fact is gone afterwards
+		if kind == 0 {
+			vassert(err == nil, "well-typed-request-succeeds")
+			_, e1 := sa.GetFact(ca, "loc", "f0")
+			vassert(e1 != nil, "take-removes-what-it-returns")
+		}
 		vreach("end")
 		return
 	}
